@@ -644,11 +644,26 @@ pub fn f64_to_f32_ref(f: f64) -> f32 {
 /// multiset comparison of predicted against observed reports.
 /// Returns Err(description) on the first mismatch.
 pub fn match_reports(pred: &[PReport], actual: &[(u32, &RKind, &Path)]) -> Result<(), String> {
-    if pred.len() != actual.len() {
-        return Err(format!("expected {} report(s), observed {}", pred.len(), actual.len()));
+    let (missing, extra) = diff_reports(pred, actual);
+    if missing.is_empty() && extra.is_empty() {
+        return Ok(());
     }
-    // bipartite matching (augmenting paths); sizes are tiny
-    let n = pred.len();
+    let mut why = String::new();
+    if pred.len() != actual.len() {
+        why.push_str(&format!("expected {} report(s), observed {}; ", pred.len(), actual.len()));
+    }
+    if let Some(i) = missing.first() {
+        why.push_str(&format!("predicted report has no counterpart: {:?} at {}; ", pred[*i].kind, crate::pv::path_str(&pred[*i].loc)));
+    }
+    if let Some(j) = extra.first() {
+        why.push_str(&format!("observed report was not predicted: {} at {}", crate::trace::show_kind(actual[*j].1), crate::pv::path_str(actual[*j].2)));
+    }
+    Err(why)
+}
+
+/// maximum bipartite matching between predicted and observed reports; returns the indices of
+/// the unmatched predicted reports and of the unmatched observed reports
+pub fn diff_reports(pred: &[PReport], actual: &[(u32, &RKind, &Path)]) -> (Vec<usize>, Vec<usize>) {
     let adj: Vec<Vec<usize>> = pred
         .iter()
         .map(|p| {
@@ -660,7 +675,7 @@ pub fn match_reports(pred: &[PReport], actual: &[(u32, &RKind, &Path)]) -> Resul
                 .collect()
         })
         .collect();
-    let mut match_of_actual: Vec<Option<usize>> = vec![None; n];
+    let mut match_of_actual: Vec<Option<usize>> = vec![None; actual.len()];
     fn try_aug(i: usize, adj: &[Vec<usize>], seen: &mut [bool], m: &mut [Option<usize>]) -> bool {
         for &j in &adj[i] {
             if seen[j] {
@@ -674,15 +689,13 @@ pub fn match_reports(pred: &[PReport], actual: &[(u32, &RKind, &Path)]) -> Resul
         }
         false
     }
-    for i in 0..n {
-        let mut seen = vec![false; n];
+    let mut missing = vec![];
+    for i in 0..pred.len() {
+        let mut seen = vec![false; actual.len()];
         if !try_aug(i, &adj, &mut seen, &mut match_of_actual) {
-            return Err(format!(
-                "predicted report has no counterpart: {:?} at {}",
-                pred[i].kind,
-                crate::pv::path_str(&pred[i].loc)
-            ));
+            missing.push(i);
         }
     }
-    Ok(())
+    let extra: Vec<usize> = (0..actual.len()).filter(|j| match_of_actual[*j].is_none()).collect();
+    (missing, extra)
 }
